@@ -361,3 +361,222 @@ Section PL2.
     apply (radsrv_forward md5 rx cfg fs _ _ _ _ _ _ _ _ H).
   Qed.
 End PL2.
+
+(* ================= the reply path ================= *)
+Lemma lor128_byte x : is_byte x = true -> is_byte (N.lor x 128) = true.
+Proof.
+  unfold is_byte. intro Hx.
+  assert (S : forallb (fun x => N.lor x 128 <? 256) bytes256 = true) by (vm_compute; reflexivity).
+  rewrite forallb_forall in S. exact (S x (in_bytes256 x ltac:(lia))).
+Qed.
+
+Section RP.
+  Variable md5 : bytes -> bytes.
+  Hypothesis md5_len : forall x, length (md5 x) = 16%nat.
+  Hypothesis md5_wf : forall x, wf_bytes (md5 x) = true.
+
+  Lemma msmpprecrypt_ok v os ns oa na v' : wf_bytes v = true -> msmpprecrypt md5 v os ns oa na = Some v' ->
+    length v' = length v /\ wf_bytes v' = true.
+  Proof.
+    intros W H. pose proof (msmpprecrypt_preserves md5 md5_len v os ns oa na) as P. rewrite H in P.
+    destruct P as (_ & L & _). split; [exact L|].
+    unfold msmpprecrypt in H. destruct (mppe_len_ok (nlen v)); [|discriminate]. cbv zeta in H.
+    assert (X : wf_bytes (firstn 2 v ++ msmppencrypt md5 (msmppdecrypt md5 (skipn 2 v) os oa (firstn 2 v)) ns na (firstn 2 v)) = true).
+    { rewrite wf_app, (wf_firstn 2 _ W). unfold msmppencrypt, msmppdecrypt.
+      rewrite (pwdcrypt_wf md5 md5_wf); [reflexivity|]. apply (pwdcrypt_wf md5 md5_wf). apply wf_skipn. exact W. }
+    congruence.
+  Qed.
+
+  Lemma msmppe_f_ok ty os ns oa na : forall fuel subs out, wf_bytes subs = true ->
+    msmppe_f md5 fuel subs ty os ns oa na = Some out -> length out = length subs /\ wf_bytes out = true.
+  Proof.
+    induction fuel as [|f IH]; intros subs out W H; [injection H as <-; split; [reflexivity | exact W]|].
+    cbn [msmppe_f] in H. destruct subs as [|t [|alen rest]]; try (injection H as <-; split; [reflexivity | exact W]).
+    rewrite !wf_cons in W. apply andb_true_iff in W as [Wt W]. apply andb_true_iff in W as [Wl W].
+    pose proof (wf_firstn (N.to_nat (alen - 2)) rest W) as Wf. pose proof (wf_skipn (N.to_nat (alen - 2)) rest W) as Ws.
+    destruct (t =? ty).
+    - destruct (msmpprecrypt md5 (firstn (N.to_nat (alen - 2)) rest) os ns oa na) as [v'|] eqn:M; [|discriminate].
+      destruct (msmppe_f md5 f (skipn (N.to_nat (alen - 2)) rest) ty os ns oa na) as [x|] eqn:R; [|discriminate].
+      injection H as <-. destruct (IH _ _ Ws R) as [Lx Wx]. destruct (msmpprecrypt_ok _ _ _ _ _ _ Wf M) as [Lv Wv].
+      split.
+      + cbn [length]. rewrite app_length, Lv, Lx, <- app_length, firstn_skipn. reflexivity.
+      + rewrite !wf_cons, Wt, Wl, wf_app, Wv, Wx. reflexivity.
+    - destruct (msmppe_f md5 f (skipn (N.to_nat (alen - 2)) rest) ty os ns oa na) as [x|] eqn:R; [|discriminate].
+      injection H as <-. destruct (IH _ _ Ws R) as [Lx Wx]. split.
+      + cbn [length]. rewrite app_length, Lx, <- app_length, firstn_skipn. reflexivity.
+      + rewrite !wf_cons, Wt, Wl, wf_app, Wf, Wx. reflexivity.
+  Qed.
+
+  Lemma ms_loop_ok os ns oa na : forall attrs out, attrs_ok attrs = true ->
+    ms_loop md5 attrs os ns oa na = Some out -> attrs_ok out = true.
+  Proof.
+    induction attrs as [|a r IH]; intros out H E; [injection E as <-; reflexivity|].
+    rewrite attrs_ok_cons in H. apply andb_true_iff in H as [Ha Hr]. cbn [ms_loop] in E.
+    assert (Keep : forall o, option_map (cons a) (ms_loop md5 r os ns oa na) = Some o -> attrs_ok o = true).
+    { intros o X. destruct (ms_loop md5 r os ns oa na) as [r'|] eqn:R; [|discriminate]. injection X as <-.
+      rewrite attrs_ok_cons, Ha, (IH _ Hr eq_refl). reflexivity. }
+    destruct (negb (tlv_t a =? Consts.RAD_Attr_Vendor_Specific)); [exact (Keep _ E)|].
+    destruct (tlv_l a <=? 4); [discriminate|].
+    destruct (negb (beq_bytes (firstn 4 (tlv_v a)) [0; 0; 1; 55])); [exact (Keep _ E)|].
+    destruct (negb (attrvalidate (skipn 4 (tlv_v a)))); [discriminate|].
+    destruct (aok_parts _ Ha) as (La & Wa & Ta).
+    destruct (msmppe_f md5 _ (skipn 4 (tlv_v a)) _ os ns oa na) as [s1|] eqn:M1; [|discriminate].
+    destruct (msmppe_f md5 _ s1 _ os ns oa na) as [s2|] eqn:M2; [|discriminate].
+    destruct (ms_loop md5 r os ns oa na) as [r'|] eqn:R; [|discriminate].
+    set (hd4 := firstn 4 (tlv_v a)) in *. injection E as <-. subst hd4.
+    destruct (msmppe_f_ok _ _ _ _ _ _ _ _ (wf_skipn 4 _ Wa) M1) as [L1 W1].
+    destruct (msmppe_f_ok _ _ _ _ _ _ _ _ W1 M2) as [L2 W2].
+    rewrite attrs_ok_cons, (IH _ Hr eq_refl), andb_true_r.
+    apply aok_same_len; [exact Ha | | rewrite wf_app, (wf_firstn 4 _ Wa), W2; reflexivity].
+    rewrite app_length, L2, L1, <- app_length, firstn_skipn. reflexivity.
+  Qed.
+
+  Lemma take_rand_wf rnd n : wf_bytes rnd = true -> wf_bytes (fst (take_rand rnd n)) = true /\ wf_bytes (snd (take_rand rnd n)) = true.
+  Proof.
+    intro W. unfold take_rand. cbn [fst snd]. split; [apply wf_firstn; rewrite wf_app, W, wf_zeros; reflexivity | apply wf_skipn; exact W].
+  Qed.
+
+  Lemma tunnelpwd_loop_ok os ns oa na : forall attrs rnd out, attrs_ok attrs = true -> wf_bytes rnd = true ->
+    tunnelpwd_loop md5 attrs os ns oa na rnd = Some out -> attrs_ok out = true.
+  Proof.
+    induction attrs as [|a r IH]; intros rnd out H Wr E; [injection E as <-; reflexivity|].
+    rewrite attrs_ok_cons in H. apply andb_true_iff in H as [Ha Hr]. cbn [tunnelpwd_loop] in E.
+    destruct (negb (tlv_t a =? Consts.RAD_Attr_Tunnel_Password)).
+    - destruct (tunnelpwd_loop md5 r os ns oa na rnd) as [r'|] eqn:R; [|discriminate]. injection E as <-.
+      rewrite attrs_ok_cons, Ha, (IH _ _ Hr Wr R). reflexivity.
+    - destruct (take_rand rnd 2) as [salt0 rnd'] eqn:TR.
+      destruct (take_rand_wf rnd 2 Wr) as [Ws0 Wr']. rewrite TR in Ws0, Wr'. cbn [fst snd] in Ws0, Wr'.
+      destruct (tlv_l a <? 3) eqn:L3; [discriminate|].
+      destruct (aok_parts _ Ha) as (La & Wa & Ta).
+      match type of E with context [pwdrecrypt md5 ?v ?a1 ?a2 ?a3 ?a4 ?a5 ?nsalt] => set (newsalt := nsalt) in *;
+        destruct (pwdrecrypt md5 v a1 a2 a3 a4 a5 newsalt) as [v'|] eqn:P; [|discriminate] end.
+      destruct (tunnelpwd_loop md5 r os ns oa na rnd') as [r'|] eqn:R; [|discriminate].
+      set (tag := firstn 1 (tlv_v a)) in *. injection E as <-. subst tag.
+      destruct (pwdrecrypt_ok md5 md5_len md5_wf _ _ _ _ _ _ _ _ (wf_skipn 3 _ Wa) P) as [Lv Wv].
+      assert (Wns : wf_bytes newsalt = true /\ length newsalt = 2%nat).
+      { subst newsalt. destruct salt0 as [|x [|y rest]]; [split; reflexivity | split; reflexivity |].
+        rewrite !wf_cons in Ws0. apply andb_true_iff in Ws0 as [Hx Ws0]. apply andb_true_iff in Ws0 as [Hy _].
+        split; [rewrite !wf_cons, (lor128_byte _ Hx), Hy; reflexivity | reflexivity]. }
+      destruct Wns as [Wns Lns].
+      rewrite attrs_ok_cons, (IH _ _ Hr Wr' R), andb_true_r.
+      apply aok_same_len; [exact Ha | | rewrite !wf_app, (wf_firstn 1 _ Wa), Wns, Wv; reflexivity].
+      unfold Ttl.tlv_l, nlen in L3. rewrite !app_length, Lns, Lv, skipn_length, firstn_length. clear - L3. lia.
+  Qed.
+End RP.
+
+Lemma last_ma_split_none l : forallb (fun a => negb (tlv_t a =? Consts.RAD_Attr_Message_Authenticator)) l = true -> last_ma_split l = None.
+Proof.
+  induction l as [|a l IH]; intro H; [reflexivity|]. cbn [forallb] in H. apply andb_true_iff in H as [Ha H].
+  cbn [last_ma_split]. rewrite (IH H). apply negb_true_iff in Ha. rewrite Ha. reflexivity.
+Qed.
+
+Lemma filter_no_ma l : forallb (fun a => negb (tlv_t a =? Consts.RAD_Attr_Message_Authenticator))
+                         (filter (fun a => negb (tlv_t a =? Consts.RAD_Attr_Message_Authenticator)) l) = true.
+Proof. apply forallb_forall. intros x Hx. apply filter_In in Hx. apply Hx. Qed.
+
+Section RPL.
+  Variable md5 : bytes -> bytes.
+  Hypothesis md5_len : forall x, length (md5 x) = 16%nat.
+  Hypothesis md5_wf : forall x, wf_bytes (md5 x) = true.
+  Variable rx : N -> bytes -> option (list (Z * Z)).
+  Variable cfg : config.
+  Variable fs : N -> bool.
+
+  Lemma single_ma_front l : single_ma (ensuremsgauthfront l) = true.
+  Proof.
+    unfold single_ma, ensuremsgauthfront. cbn [last_ma_split]. rewrite (last_ma_split_none _ (filter_no_ma l)).
+    unfold msgauth_placeholder. cbn [tlv_t]. rewrite N.eqb_refl. reflexivity.
+  Qed.
+
+  (* C06/C02 for a freshly serialised reply, configurations without rewrite blocks on the reply path *)
+  Theorem delivered_plain_wf st s buf rnd c p :
+    delivered md5 rx cfg fs st s buf rnd c p ->
+    sc_rwin (srvconf_of cfg s) = None -> cc_rwout (clconf_of cfg c) = None ->
+    wf_bytes buf = true -> (20 <= length buf)%nat -> wf_bytes rnd = true ->
+    (* what the request state must satisfy (established when the request was received) *)
+    (forall h r, slot_of st s (nth 1 buf 0) = Some h -> get_rq st h = Some r ->
+       length (rq_rqauth r) = 16%nat /\ wf_bytes (rq_rqauth r) = true /\ is_byte (rq_rqid r) = true /\
+       match rq_origuser r with Some ou => wf_bytes ou = true | None => True end) ->
+    is_byte (o_addttl (cf_opt cfg)) = true -> is_byte (cc_addttl (clconf_of cfg c)) = true ->
+    exists r, (exists h, slot_of st s (nth 1 buf 0) = Some h /\ get_rq st h = Some r) /\
+      wf_packet p = true /\
+      response_auth_ok md5 p (rq_rqauth r) (cc_secret (clconf_of cfg c)) = true /\
+      (o_addttl (cf_opt cfg) = 0 -> cc_addttl (clconf_of cfg c) = 0 -> reply_code (nth 0 p 0) = true ->
+       first_is_msgauth p = true /\ all_msgauth_ok md5 p (Some (rq_rqauth r)) (cc_secret (clconf_of cfg c)) = true).
+  Proof.
+    intros D Hrwin Hrwout Wb Lb Wrnd Hst Bg Bp. destruct D.
+    destruct (Hst _ _ dl_slot dl_live) as (Lau & Wau & Bid & Wou).
+    exists dl_r. split; [exists dl_h; split; assumption|].
+    destruct (buf2radmsg_ok md5 md5_len md5_wf _ _ _ _ Wb Lb dl_parsed) as (A0 & _ & _ & Bc & _).
+    rewrite Hrwin in dl_rwin. cbn [dorewrite] in dl_rwin. injection dl_rwin as <-.
+    destruct dl_ttl as [Ttl _].
+    assert (A2 : attrs_ok dl_a2 = true).
+    { pose proof (checkttl_ok (o_ttl0 (cf_opt cfg)) (o_ttl1 (cf_opt cfg)) _ A0) as X. rewrite Ttl in X. exact X. }
+    pose proof (ms_loop_ok md5 md5_len md5_wf _ _ _ _ _ _ A2 dl_mppe) as A3.
+    assert (A4 : attrs_ok dl_a4 = true).
+    { destruct (m_code dl_msg =? Consts.RAD_Access_Accept); [|injection dl_tunnel as <-; exact A3].
+      exact (tunnelpwd_loop_ok md5 md5_len md5_wf _ _ _ _ _ _ _ A3 Wrnd dl_tunnel). }
+    assert (A5 : attrs_ok dl_a5 = true).
+    { destruct (rq_origuser dl_r) as [ou|]; [|injection dl_user as <-; exact A4].
+      destruct (gettype Consts.RAD_Attr_User_Name dl_a4); [|injection dl_user as <-; exact A4].
+      destruct (Consts.RAD_Max_Attr_Value_Length <? nlen ou) eqn:Lo; [discriminate|]. injection dl_user as <-.
+      apply replace_first_ok; [exact A4|]. unfold aok, Ttl.tlv_l. cbn [tlv_v tlv_t]. rewrite Wou.
+      unfold Consts.RAD_Max_Attr_Value_Length in Lo. replace (nlen ou <=? 253) with true by (clear - Lo; lia). reflexivity. }
+    rewrite Hrwout in dl_rwout. cbn [dorewrite] in dl_rwout. injection dl_rwout as <-.
+    assert (A7 : attrs_ok (if reply_code (m_code dl_msg) then ensuremsgauthfront dl_a5 else dl_a5) = true)
+      by (destruct (reply_code (m_code dl_msg)); [apply ensuremsgauthfront_ok|]; exact A5).
+    assert (A8 : attrs_ok dl_a8 = true).
+    { subst dl_a8. cbv zeta. destruct (fs 30); [exact A7|]. apply ttl_stage_add_ok; assumption. }
+    set (m8 := mkMsg (m_code dl_msg) (rq_rqid dl_r) (rq_rqauth dl_r) dl_a8 false) in *.
+    assert (NB : existsb bad_ma (m_attrs m8) = false).
+    { unfold radmsg2buf in dl_bytes. destruct (_ <? _); [discriminate|]. destruct (existsb bad_ma (m_attrs m8)); [discriminate | reflexivity]. }
+    assert (OK : msg_ok m8 = true).
+    { unfold msg_ok. subst m8. cbn [m_attrs m_auth m_code m_id] in *. rewrite A8, (not_bad_ma_ok _ NB), Lau, Wau, Bc, Bid. reflexivity. }
+    assert (MAX : Consts.RADMSG2BUF_MAX <= 4096) by (vm_compute; discriminate).
+    assert (SC : signed_code (m_code m8) = true).
+    { subst m8. cbn [m_code]. unfold reply_codes in dl_code. unfold signed_code.
+      clear - dl_code. repeat (apply orb_true_iff in dl_code as [dl_code|dl_code]); rewrite dl_code; cbn; rewrite ?orb_true_r; reflexivity. }
+    split; [exact (radmsg2buf_wf md5 md5_len m8 _ p dl_ser OK MAX dl_bytes)|].
+    split; [exact (radmsg2buf_response_auth md5 md5_len m8 _ p dl_ser OK MAX SC dl_bytes)|].
+    intros Z1 Z2 Hrc.
+    pose proof (radmsg2buf_shape md5 md5_len m8 (cc_secret (clconf_of cfg c)) OK) as Sh. rewrite dl_bytes in Sh.
+    destruct Sh as (_ & auth' & attrs' & Eb' & _).
+    assert (Cm : reply_code (m_code dl_msg) = true).
+    { rewrite Eb' in Hrc. unfold radius_header in Hrc. cbn [app nth] in Hrc. exact Hrc. }
+    assert (E8 : dl_a8 = ensuremsgauthfront dl_a5).
+    { subst dl_a8. cbv zeta. rewrite Cm. destruct (fs 30); [reflexivity|].
+      unfold ttl_stage_add. rewrite Z1, Z2. cbn [N.eqb negb orb]. rewrite andb_false_r. reflexivity. }
+    assert (SM : single_ma (m_attrs m8) = true) by (subst m8; cbn [m_attrs]; rewrite E8; apply single_ma_front).
+    destruct (radmsg2buf_msgauth md5 md5_len m8 _ p dl_ser OK MAX SM dl_bytes) as (AM & _ & FM).
+    split; [|exact AM].
+    subst m8. cbn [m_attrs] in FM. rewrite E8 in FM. unfold ensuremsgauthfront in FM. apply FM. reflexivity.
+  Qed.
+End RPL.
+
+Section RPL2.
+  Variable md5 : bytes -> bytes.
+  Hypothesis md5_len : forall x, length (md5 x) = 16%nat.
+  Hypothesis md5_wf : forall x, wf_bytes (md5 x) = true.
+
+  Theorem replyh_emits_wf rx cfg fs st s buf now rnd c p :
+    In (OReply c p) (snd (replyh md5 rx cfg fs st s buf now rnd)) ->
+    sc_rwin (srvconf_of cfg s) = None -> cc_rwout (clconf_of cfg c) = None ->
+    wf_bytes buf = true -> (20 <= length buf)%nat -> wf_bytes rnd = true ->
+    (forall h r, slot_of st s (nth 1 buf 0) = Some h -> get_rq st h = Some r ->
+       rq_replybuf r = None /\
+       length (rq_rqauth r) = 16%nat /\ wf_bytes (rq_rqauth r) = true /\ is_byte (rq_rqid r) = true /\
+       match rq_origuser r with Some ou => wf_bytes ou = true | None => True end) ->
+    is_byte (o_addttl (cf_opt cfg)) = true -> is_byte (cc_addttl (clconf_of cfg c)) = true ->
+    exists r, (exists h, slot_of st s (nth 1 buf 0) = Some h /\ get_rq st h = Some r) /\
+      wf_packet p = true /\
+      response_auth_ok md5 p (rq_rqauth r) (cc_secret (clconf_of cfg c)) = true /\
+      (o_addttl (cf_opt cfg) = 0 -> cc_addttl (clconf_of cfg c) = 0 -> reply_code (nth 0 p 0) = true ->
+       first_is_msgauth p = true /\ all_msgauth_ok md5 p (Some (rq_rqauth r)) (cc_secret (clconf_of cfg c)) = true).
+  Proof.
+    intros H Hrwin Hrwout Wb Lb Wr Hst Bg Bp.
+    destruct (replyh_delivered md5 rx cfg fs _ _ _ _ _ _ _ H) as [(h & r & Hs & Hr & _ & Hb) | D].
+    - destruct (Hst _ _ Hs Hr) as [Hn _]. congruence.
+    - apply (delivered_plain_wf md5 md5_len md5_wf rx cfg fs st s buf rnd c p D); try assumption.
+      intros h r Hs Hr. destruct (Hst _ _ Hs Hr) as (_ & X). exact X.
+  Qed.
+End RPL2.
